@@ -64,9 +64,16 @@ class RegexCompiler:
 
         return self.bytecode
 
+    # Upper bound on the number of instructions of one compiled pattern
+    MAX_PROGRAM_SIZE = 200000
+
     def _emit(self, opcode: Op, *args) -> int:
         """Emit an instruction and return its index."""
         idx = len(self.bytecode)
+        if idx >= self.MAX_PROGRAM_SIZE:
+            # Counted quantifiers are unrolled: a{99999999} or nested counts would
+            # otherwise take unbounded time and memory to compile
+            raise RegExpError("Regular expression too large")
         self.bytecode.append((opcode, *args))
         return idx
 
